@@ -107,7 +107,7 @@ class XPathToken(Token[ta.XPathTokenType]):
         elif symbol == '#':
             return '%s#%s' % (self[0].source, self[1].source)
         elif symbol == '{' or symbol == 'Q{':
-            return '%s%s}%s' % (symbol, self[0].value, self[1].source)
+            return '%s%s}%s%s' % (symbol, self[0].value, self[1].source, self.occurrence or '')
         elif symbol == '=>':
             if isinstance(self[1], self.registry.function_token):
                 return '%s => %s%s' % (self[0].source, self[1].symbol, self[2].source)
